@@ -124,6 +124,11 @@ Theorem paris_source_valid R hinf n G wout win D m t :
   exists D', reorder_dendrogram D = Ok D' /\ good_dendrogram n D'.
 Proof. intros Hc. rewrite Hc. apply paris_clamped_valid. Qed.
 
+(** The source's tie branch is the exact test with the smallest-index choice (generated fact; [reflexivity] fails —
+    and with it this file — as soon as paris.pyx uses any other tie rule). *)
+Lemma paris_source_tie_exact : paris_src_tie_exact = true.
+Proof. reflexivity. Qed.
+
 (** Bipartite input (_split_vars): from a good full dendrogram over n1 + n2 nodes, the row and column dendrograms are
     good dendrograms over the rows / the columns and show exactly the merges of the full one restricted to each side. *)
 Theorem split_vars_valid D n1 n2 :
